@@ -66,7 +66,7 @@ func Check18(c Case18, r *core.Rec) {
 	rich := c.Profile.decodes() // all variations; otherwise only what the standard itself normalises
 	depth := 0
 	if rich {
-		depth = 3
+		depth = 16
 	}
 	a := c.Web.Render(c.A, depth, rich, rich)
 	b := c.Web.Render(c.B, depth, rich, rich)
